@@ -43,21 +43,41 @@ ASSUMPTIONS = [
     "vector cell data are written as flat arrays (3 components per cell, cell-wise contiguous) and compared "
     "with the flat array that is restored",
     "the md-grid used for the import is built by the same deterministic builder as the exported one",
-    "time: after DataSavingMixin.load_data_from_pvd the time manager must hold the last written time and dt",
+    "time: after DataSavingMixin.load_data_from_pvd the time manager must hold the last written time and dt (exactly) "
+    "and the exporter's counter the last index; clocks whose times the pvd format '%f' cannot tell apart are skipped; "
+    "with write_pvd(times=) the most recent state is the one attached to the largest time",
+    "purity: arrays handed to write_vtu / write_pvd are unchanged; importing twice gives the same state; an older "
+    "state imported before is replaced completely",
 ]
 BOUNDS = {
     "quick": "2-d: all 84 letter sequences of length <= 3, binary (ascii for length <= 2); 3-d: all sequences of "
-             "length <= 2; 5 fractured md-grids; 7 time-step label sets; 4 (T, dt) pairs",
+             "length <= 2; 5 fractured md-grids; 7 time-step label sets; 9 clocks (start, dt, steps) through the model mixin; 9 "
+             "(labels, times) assignments through write_pvd(times=)",
     "thorough": "2-d: all 84 sequences x {binary, ascii}; 3-d: all 39 sequences of length <= 3 x {binary, ascii}; "
-                "5 fractured md-grids x {binary, ascii}; 9 label sets; 6 (T, dt) pairs",
+                "5 fractured md-grids x {binary, ascii}; 9 label sets; 13 clocks; 9 (labels, times) assignments",
 }
 MIN_CLASSES = 6
 CHUNK = 2
 
 STEP_SETS = [[1], [1, 2], [0, 1, 2], [2, 10], [9, 10, 11], [0, 7], list(range(12))]
 STEP_SETS_T = STEP_SETS + [[99, 100], [5]]
-CLOCKS = [(3.0, 1.0), (1.0, 0.25), (2.0, 0.5), (10.0, 2.5)]
-CLOCKS_T = CLOCKS + [(0.3, 0.1), (12.0, 1.0)]
+# (start time, dt, number of steps): unit steps, fractional times, large offsets with small steps (where
+# "%f", the format of the pvd file, still separates the times), tiny times
+CLOCKS = [(0.0, 1.0, 3), (0.0, 0.25, 4), (0.0, 0.5, 4), (0.0, 2.5, 4), (1.0e6, 1.0, 3), (999997.0, 1.0, 3),
+          (1.0e8, 1.0, 3), (0.0, 1.0e-6, 3), (1.0e6, 0.25, 4)]
+CLOCKS_T = CLOCKS + [(0.0, 0.1, 3), (0.0, 1.0, 12), (1.0e5, 1.0, 3), (5.0, 0.5, 6)]
+# (labels in the order written, times passed to write_pvd): times[i] belongs to the files with label labels[i]
+PVD_TIMES = [
+    ([0, 1, 2, 3], [1.0e6, 1.0e6 + 1, 1.0e6 + 2, 1.0e6 + 3]),
+    ([0, 1, 2, 3], [999997.0, 999998.0, 999999.0, 1000000.0]),
+    ([0, 1, 2, 3], [1.0e9, 1.0e9 + 1e-3, 1.0e9 + 2e-3, 1.0e9 + 3e-3]),
+    ([0, 1, 2, 3], [0.0, 1e-6, 2e-6, 3e-6]),
+    ([4, 5, 6], [100000.0, 100001.0, 100002.0]),
+    ([5, 3, 8], [0.5, 1.5, 1.0]),          # latest time belongs to neither the last nor the largest label
+    ([2, 1, 0], [1.0, 2.0, 3.0]),          # labels decrease while time increases
+    ([7, 8], [-1.0, -0.5]),
+    ([1, 2, 3], [0.1, 0.2, 0.30000000000000004]),
+]
 
 
 def cases(tier):
@@ -78,8 +98,10 @@ def cases(tier):
             out.append({"kind": "frac", "name": name, "binary": False})
     for s in STEP_SETS if tier == "quick" else STEP_SETS_T:
         out.append({"kind": "steps", "labels": s})
-    for T, dt in CLOCKS if tier == "quick" else CLOCKS_T:
-        out.append({"kind": "clock", "T": T, "dt": dt})
+    for t0, dt, n in CLOCKS if tier == "quick" else CLOCKS_T:
+        out.append({"kind": "clock", "t0": t0, "dt": dt, "n": n})
+    for labels, times in PVD_TIMES:
+        out.append({"kind": "pvdtimes", "labels": labels, "times": times})
     return out
 
 
@@ -100,7 +122,7 @@ def _field(kind, rank, n, step, vec):
     return np.vstack([v + 0.125, -(v + 0.5), v + 0.75]).ravel("F")
 
 
-def _write_all(mdg, folder, name, labels, binary, via_strings):
+def _write_all(mdg, folder, name, labels, binary, via_strings, times=None, keep=None):
     """Export one vtu set per label; returns the data written at the LAST call."""
     import porepy as pp
 
@@ -110,6 +132,7 @@ def _write_all(mdg, folder, name, labels, binary, via_strings):
     for s in labels:
         written = {}
         data = []
+        handed = []  # (array handed to the exporter, pristine copy)
         for r, sd in enumerate(sds):
             for key, vec in (("p", False), ("v", True)):
                 val = _field("sd", r, sd.num_cells, s, vec)
@@ -118,6 +141,7 @@ def _write_all(mdg, folder, name, labels, binary, via_strings):
                     pp.set_solution_values(key, val.copy(), mdg.subdomain_data(sd), time_step_index=0)
                 else:
                     data.append((sd, key, val.copy()))
+                    handed.append((data[-1][2], val))
         for r, intf in enumerate(intfs):
             for key, vec in (("lam", False), ("w", True)):
                 val = _field("intf", r, intf.num_cells, s, vec)
@@ -126,13 +150,31 @@ def _write_all(mdg, folder, name, labels, binary, via_strings):
                     pp.set_solution_values(key, val.copy(), mdg.interface_data(intf), time_step_index=0)
                 else:
                     data.append((intf, key, val.copy()))
+                    handed.append((data[-1][2], val))
         if via_strings:
             ex.write_vtu(["p", "v"] + (["lam", "w"] if intfs else []), time_step=s)
         else:
             ex.write_vtu(data, time_step=s)
+        if via_strings:
+            # the md-grid dictionaries are the argument: they must still hold what was stored
+            handed = [(np.asarray(v), written[k]) for k, v in _read_back(mdg).items() if v is not None]
+        if any(not np.array_equal(a, b) for a, b in handed):
+            raise _Impure("write_vtu modified the data arrays it was given")
+        if keep is not None:
+            keep[s] = written
         last = written
-    ex.write_pvd()
+    if times is None:
+        ex.write_pvd()
+    else:
+        t_arr = np.array(times, dtype=float)
+        ex.write_pvd(times=t_arr)
+        if not np.array_equal(t_arr, np.array(times, dtype=float)):
+            raise _Impure("write_pvd modified the array of times")
     return last, ex
+
+
+class _Impure(Exception):
+    pass
 
 
 def _read_back(mdg2):
@@ -188,23 +230,35 @@ def _routes(folder, name, mdg, last_label, has_intf):
     return [("vtu", files), ("pvd", folder / f"{name}.pvd"), ("mdgpvd", folder / f"{name}_{tag}.pvd")]
 
 
-def _roundtrip(out, case, build, desc, labels, binary, via_strings, tagcls):
+def _roundtrip(out, case, build, desc, labels, binary, via_strings, tagcls, times=None):
     import porepy as pp
 
     folder = Path("exp_" + "".join(ch if ch.isalnum() else "_" for ch in str(sorted(case.items())))[:120])
     name = "c38"
+    keep: dict = {}
     try:
         mdg = build()
-        written, _ = _write_all(mdg, folder, name, labels, binary, via_strings)
+        _write_all(mdg, folder, name, labels, binary, via_strings, times=times, keep=keep)
+    except _Impure as e:
+        out.violate(str(e), **desc)
+        out.ev("VIOLATION")
+        _cleanup(folder)
+        return
     except Exception as e:
         out.violate("export raised", error=repr(e), **desc)
         out.ev("VIOLATION")
+        _cleanup(folder)
         return
+    # the most recent state: last label written, or the label attached to the largest time
+    last = labels[-1] if times is None else labels[int(np.argmax(times))]
+    written = keep[last]
     ntypes = _cell_type_signature(mdg)
     has_intf = len(list(mdg.interfaces(codim=1))) > 0
     keys = ["p", "v"] + (["lam", "w"] if has_intf else [])
-    last = labels[-1]
-    for route, arg in _routes(folder, name, mdg, last, has_intf):
+    routes = _routes(folder, name, mdg, last, has_intf)
+    nfiles = len(routes[0][1])
+    older = [l for l in labels if l != last]
+    for route, arg in routes:
         for keymode in ("given", "from-mdg") if (via_strings and route == "vtu") else ("given",):
             mdg2 = build()
             if keymode == "from-mdg":
@@ -216,16 +270,24 @@ def _roundtrip(out, case, build, desc, labels, binary, via_strings, tagcls):
                     for key, m in (("lam", 1), ("w", 3)):
                         pp.set_solution_values(key, np.zeros(m * intf.num_cells), mdg2.interface_data(intf), time_step_index=0)
             d2 = dict(desc, route=route, keys=keymode, time_step_labels=labels, binary=binary)
-            try:
-                ex2 = pp.Exporter(mdg2, "imp", folder_name=folder / "imp")
-                k = keys if keymode == "given" else None
-                idx = None
+            if times is not None:
+                d2["times"] = list(times)
+            k = keys if keymode == "given" else None
+
+            def do_import(ex2):
                 if route == "vtu":
                     ex2.import_state_from_vtu(list(arg), keys=k)
-                elif route == "pvd":
-                    idx = ex2.import_from_pvd(arg, keys=k)
-                else:
-                    idx = ex2.import_from_pvd(arg, is_mdg_pvd=True, keys=k)
+                    return None
+                if route == "pvd":
+                    return ex2.import_from_pvd(arg, keys=k)
+                return ex2.import_from_pvd(arg, is_mdg_pvd=True, keys=k)
+
+            try:
+                ex2 = pp.Exporter(mdg2, "imp", folder_name=folder / "imp")
+                if route == "vtu" and older:
+                    # an older state is imported first; the later import must replace it completely
+                    ex2.import_state_from_vtu(list(_routes(folder, name, mdg, older[0], has_intf)[0][1]), keys=k)
+                idx = do_import(ex2)
             except Exception as e:
                 out.violate("import raised", error=repr(e), **d2)
                 out.ev("VIOLATION")
@@ -233,12 +295,28 @@ def _roundtrip(out, case, build, desc, labels, binary, via_strings, tagcls):
             bad = _compare(written, _read_back(mdg2), exact=binary)
             nontriv = ntypes > 1 or has_intf or len(labels) > 1
             key = (str(case), route, keymode) if nontriv else None
+            rf = getattr(ex2, "_restart_files", None)
+            what = None
             if bad is not None:
                 out.violate(bad[0], restored=bad[1], written=bad[2], **d2)
                 out.ev("VIOLATION")
-            elif idx is not None and idx != last:
-                out.violate("import_from_pvd returned a time index that is not the most recent one", returned=idx,
-                            expected=last, **d2)
+                continue
+            if idx is not None and idx != last:
+                what = ("import_from_pvd returned a time index that is not the most recent one", idx, last)
+            elif route != "vtu" and rf is not None and len(rf) != nfiles:
+                what = ("number of vtu files registered for the restart step differs from the files of one step",
+                        [str(f) for f in rf], nfiles)
+            else:
+                # a second import into the same md-grid must give the same state again
+                try:
+                    idx2 = do_import(ex2)
+                    bad = _compare(written, _read_back(mdg2), exact=binary)
+                    if bad is not None or idx2 != idx:
+                        what = ("second import into the same md-grid differs from the first", idx2, idx)
+                except Exception as e:
+                    what = ("second import into the same md-grid raised", repr(e), None)
+            if what is not None:
+                out.violate(what[0], got=what[1], expected=what[2], **d2)
                 out.ev("VIOLATION")
             else:
                 out.ev(f"{tagcls}/{route}/{'bin' if binary else 'ascii'}/types{ntypes}/{'intf' if has_intf else 'nointf'}"
@@ -259,14 +337,15 @@ def _run_clock(out, case):
     import porepy as pp
     from porepy.viz.data_saving_model_mixin import DataSavingMixin
 
-    T, dt = case["T"], case["dt"]
-    folder = Path(f"clock_{str(T).replace('.', '_')}_{str(dt).replace('.', '_')}")
+    t0, dt, n = case["t0"], case["dt"], case["n"]
+    times = [t0 + k * dt for k in range(n + 1)]
+    folder = Path("clock_" + "".join(ch if ch.isalnum() else "_" for ch in f"{t0}_{dt}_{n}"))
 
     class Mini(DataSavingMixin):
         def __init__(self, folder):
             self.mdg = G.mdg_from_sequence("QT")
             self.params = {"folder_name": folder, "file_name": "m"}
-            self.time_manager = pp.TimeManager(schedule=[0.0, T], dt_init=dt, constant_dt=True)
+            self.time_manager = pp.TimeManager(schedule=[times[0], times[-1]], dt_init=dt, constant_dt=True)
             self.restart_options = {}
             self.exporter = pp.Exporter(self.mdg, "m", folder_name=folder)
             self.step = 0
@@ -274,13 +353,12 @@ def _run_clock(out, case):
         def data_to_export(self):
             return [(sd, "p", _field("sd", r, sd.num_cells, self.step, False)) for r, sd in enumerate(self.mdg.subdomains())]
 
-    desc = {"final_time": T, "dt": dt}
+    desc = {"start_time": t0, "dt": dt, "steps": n}
     try:
         m = Mini(folder)
         m.write_pvd_and_vtu()  # initial state
-        nsteps = int(round(T / dt))
-        for k in range(nsteps):
-            m.time_manager.increase_time()
+        for k in range(n):
+            m.time_manager.time = times[k + 1]  # the clock of the simulation (no accumulated round-off)
             m.time_manager.increase_time_index()
             m.step = k + 1
             m.write_pvd_and_vtu()
@@ -292,16 +370,22 @@ def _run_clock(out, case):
         out.ev("VIOLATION")
         _cleanup(folder)
         return
+    shown = ["%f" % t for t in times_written]
+    if len(set(shown)) < len(shown):
+        # the pvd format ("%f") cannot tell these times apart: not a letter of the plain pvd route
+        out.ev("clock/skipped:times-not-representable-in-pvd")
+        _cleanup(folder)
+        return
     # (a) pure time-information round trip
     try:
-        tm = pp.TimeManager(schedule=[0.0, T], dt_init=dt, constant_dt=True)
+        tm = pp.TimeManager(schedule=[times[0], times[-1]], dt_init=dt, constant_dt=True)
         tm.load_time_information(folder / "times.json")
         if list(tm.exported_times) != times_written or list(tm.exported_dt) != list(m.time_manager.exported_dt):
             out.violate("load_time_information does not restore what write_time_information wrote",
                         written=times_written, read=list(tm.exported_times), **desc)
             out.ev("VIOLATION")
         else:
-            out.ev("clock/times.json", ("times", T, dt))
+            out.ev("clock/times.json", ("times", t0, dt, n))
     except Exception as e:
         out.violate("load_time_information raised", error=repr(e), **desc)
         out.ev("VIOLATION")
@@ -313,7 +397,7 @@ def _run_clock(out, case):
             if route == "pvd":
                 m2.load_data_from_pvd(folder / "m.pvd", times_file=folder / "times.json", keys=["p"])
             else:
-                m2.load_data_from_pvd(folder / f"m_{str(nsteps).zfill(6)}.pvd", is_mdg_pvd=True,
+                m2.load_data_from_pvd(folder / f"m_{str(n).zfill(6)}.pvd", is_mdg_pvd=True,
                                       times_file=folder / "times.json", keys=["p"])
         except Exception as e:
             out.violate("restart through the model mixin raised", error=repr(e), **d2)
@@ -322,17 +406,27 @@ def _run_clock(out, case):
         got = {("sd", r, "p"): np.asarray(pp.get_solution_values("p", m2.mdg.subdomain_data(sd), time_step_index=0))
                for r, sd in enumerate(m2.mdg.subdomains())}
         bad = _compare(written, got, exact=True)
-        integer_times = all(float(t).is_integer() for t in times_written) and dt == 1.0
+        regime = ("unit-steps" if (dt == 1.0 and t0 == 0.0) else "large-offset" if abs(t0) >= 1e5 else
+                  "tiny" if dt < 1e-4 else "fractional-times")
+        rf = getattr(m2.exporter, "_restart_files", None)
         if bad is not None:
             out.violate("restart: " + bad[0], restored=bad[1], written=bad[2], **d2)
             out.ev("VIOLATION")
-        elif abs(float(m2.time_manager.time) - t_last) > 1e-12 * max(1.0, T) or abs(float(m2.time_manager.dt) - dt_last) > 1e-12:
+        elif float(m2.time_manager.time) != t_last or float(m2.time_manager.dt) != dt_last:
             out.violate("restart: time / dt are not the ones written with the most recent time step",
                         restored_time=float(m2.time_manager.time), restored_dt=float(m2.time_manager.dt),
                         written_time=t_last, written_dt=dt_last, **d2)
             out.ev("VIOLATION")
+        elif m2.exporter._time_step_counter != n:
+            out.violate("restart: the exporter's time step counter is not the most recent time-step index",
+                        counter=m2.exporter._time_step_counter, expected=n, **d2)
+            out.ev("VIOLATION")
+        elif rf is not None and len(rf) != 1:
+            out.violate("restart: more than the vtu files of one time step are registered as restart files",
+                        restart_files=[str(f) for f in rf], **d2)
+            out.ev("VIOLATION")
         else:
-            out.ev(f"clock/{route}/{'unit-steps' if integer_times else 'fractional-times'}", ("clock", T, dt, route))
+            out.ev(f"clock/{route}/{regime}", ("clock", t0, dt, n, route))
     _cleanup(folder)
 
 
@@ -355,6 +449,9 @@ def run_case(case) -> Outcome:
     elif kind == "steps":
         _roundtrip(out, case, lambda: G.mdg_from_sequence("Q"), {"subdomains": "Q"}, list(case["labels"]), True, False,
                    "steps")
+    elif kind == "pvdtimes":
+        _roundtrip(out, case, lambda: G.mdg_fractured("cart2-1f"), {"md_grid": "cart2-1f"}, list(case["labels"]), True,
+                   False, "pvdtimes", times=list(case["times"]))
     else:
         _run_clock(out, case)
     if not out.samples:
